@@ -345,6 +345,12 @@ def wellFormedList : List Expr → Bool
   | e :: es => e.wellFormed && wellFormedList es
 end
 
+/-- atomic tag filters: what `stmt.TagFilter` values the parser builds (`=`, `like`, `in`, `=~`, and their negations) -/
+def Expr.isTagFilter : Expr → Bool
+  | .equals _ _ | .like _ _ | .inE _ _ | .regex _ _ => true
+  | .not (.equals _ _) | .not (.like _ _) | .not (.inE _ _) | .not (.regex _ _) => true
+  | _ => false
+
 /-! ## BinaryOP (sql/stmt/binary_operator.go) -/
 
 /-- (name, value, `BinaryOPString`) — the iota block and the String switch. -/
